@@ -268,7 +268,7 @@ func checkC14(c *Ctx, r *Report) {
 	if f := r2.need(cm("ForceTrim")); f != nil {
 		closeOf(cm("getConnsToCloseEmergency"))(f)
 	}
-	r2.onlyIn("call getConnsToCloseEmergency", callPred(cm("getConnsToCloseEmergency")), c.FnsOfPkg(cmP), cm("ForceTrim"))
+	r2.onlyCallers("call getConnsToCloseEmergency", []string{cm("getConnsToCloseEmergency")}, c.FnsOfPkg(cmP), cm("ForceTrim"))
 	// selected connections are keys of a candidate's conns table
 	for _, k := range []string{cm("getConnsToClose"), cm("getConnsToCloseEmergency")} {
 		if f := r2.need(k); f != nil {
